@@ -94,27 +94,28 @@ def metricsJHandlers : List (String × JHandler) := [
         ("returnValue", ratJ p.returnValue), ("returnRate", valJ p.returnRate), ("annualized", valJ p.annualized),
         ("mdd", valJ p.mdd), ("sharpe", valJ p.sharpe), ("volatility", valJ p.volatility),
         ("alpha", valJ p.alpha), ("beta", valJ p.beta), ("benchRate", valJ p.benchRate), ("benchApr", valJ p.benchApr)])),
-  -- C19: the manager model on the position-count projection; `effects` = [[da, db], …] in submission order,
-  -- tasks assigned round-robin to the workers (the theorems say the assignment is irrelevant)
+  -- C19: the manager model on the projection (positions on market 1, positions on market 2, indicator columns);
+  -- `effects` = [[da, db, dc], …] in submission order, tasks assigned round-robin to the workers (the theorems say
+  -- the assignment is irrelevant for the current code)
   ("manager", fun j => do
     let threads ← jNat j "threads"
     let attach ← jStr j "attach"
-    let a := if attach == "shared" then Manager.Attach.shared else if attach == "copied" then Manager.Attach.copied
-      else Manager.Attach.current
+    let flag (k : String) (dflt : Bool) : Bool := match jOpt j k with | some (.bool b) => b | _ => dflt
+    let cow := flag "cow" true
+    let md : Manager.Mode := if attach == "original" then Manager.Mode.original cow
+      else if attach == "copied" then ⟨true, true, cow⟩ else Manager.Mode.current cow
     let effs ← jArr j "effects"
     let strats ← effs.toList.mapM (fun e => match e with
-      | .arr #[x, y] => do
-        let da ← jRatOf x; let db ← jRatOf y
-        pure (Manager.countStrat da.num.toNat db.num.toNat)
-      | _ => throw "effects: expected [da, db]")
+      | .arr #[x, y, z] => do
+        let da ← jRatOf x; let db ← jRatOf y; let dc ← jRatOf z
+        pure (Manager.countStrat da.num.toNat db.num.toNat dc.num.toNat)
+      | _ => throw "effects: expected [da, db, dc]")
     let cpu := match jOpt j "cpu" with | some (.num n) => n.mantissa.toNat | _ => 1024
-    let ctxSet := match jOpt j "ctxSet" with | some (.bool b) => b | _ => false
-    let flag (k : String) : Bool := match jOpt j k with | some (.bool b) => b | _ => false
-    let cfg : Option (Nat × Nat) := if flag "cfgNone" then none else some (0, 0)
-    let dat : Option Unit := if flag "dataNone" then none else some ()
-    match Manager.managerRun a threads cpu ctxSet (fun i => i % (max threads 1)) cfg dat strats with
+    let cfg : Option (Nat × Nat) := if flag "cfgNone" false then none else some (0, 0)
+    let dat : Option Nat := if flag "dataNone" false then none else some 0
+    match Manager.managerRun md threads cpu (flag "windows" false) (flag "ctxSet" false) (fun i => i % (max threads 1)) cfg dat strats with
     | .done obs => pure (Json.mkObj [("outcome", .str "ok"),
-        ("positions", .arr (obs.map (fun o => Json.arr #[natJ o.1, natJ o.2])).toArray)])
+        ("positions", .arr (obs.map (fun o => Json.arr #[natJ o.1, natJ o.2.1, natJ o.2.2])).toArray)])
     | .raised cls => pure (Json.mkObj [("outcome", .str cls)]))
 ]
 
